@@ -177,6 +177,8 @@ func (e *Engine) Exec(idx int, op OpSpec, shared any) (out Outcome) {
 		err = e.Tpl.New().Fill(data).RenderFile(ctx, w, op.File)
 	case "Base.RenderFile": // straight on the shared base template
 		err = e.Tpl.RenderFile(ctx, w, op.File)
+	case "Base.Load.Render": // Load without Fill: data is what the base template holds
+		err = e.Tpl.Load(op.File).Render(ctx, w)
 	case "Base.RenderString":
 		err = e.Tpl.RenderString(ctx, w, op.Source)
 	case "RenderString":
